@@ -75,7 +75,11 @@ def run(chk):
                     "the tail beyond the implementation's stopping index is checked numerically (log-space reference), not proved"]
     chk.assumptions += ["0 <= |lambda| <= 500"]
 
+    forced = [500.0, 463.0, 300.0, 257.5, 128.0]      # every run meets the longest series (hundreds of terms)
+
     def rate():
+        if forced:
+            return forced.pop()
         r = rng.random()
         if r < 0.08:
             return 0.0
@@ -206,7 +210,7 @@ def run(chk):
     lib.correspond(chk, "termination_vs_model", IMPORTS, "list Q * list (list bool) * list (list (Z * Z)) * nat", "check_terms_case",
                    tc, tp, lambda i: td[i], shard=20, jobs=10)
     lib.correspond(chk, "entropy_of_the_whole_series_certified", IMPORTS, "Z * Z * nat * Z * Z", "check_entropy_full_case",
-                   fc, [None] * len(fc), lambda i: fd[i], shard=2, jobs=15, timeout=1500)
+                   fc, list(ep), lambda i: fd[i], shard=2, jobs=15, timeout=1500)      # ep: the value predicate of the same calls
     # ---------------------------------------------------------------- joint entropy
     jc, jp, jd = [], [], []
     for t in range(100 if chk.tier == "quick" else 4000):
